@@ -140,7 +140,9 @@ func cmpField(a *attrs, p, q protoreflect.FieldDescriptor) {
 		a.eq(n+" MapValue kind", p.MapValue().Kind(), q.MapValue().Kind())
 	}
 	// resolved features behind the derived behaviour
-	if fd, ok := p.(interface{ ParentFile() protoreflect.FileDescriptor }); ok && fd.ParentFile().Syntax() == protoreflect.Editions {
+	if fd, ok := p.(interface {
+		ParentFile() protoreflect.FileDescriptor
+	}); ok && fd.ParentFile().Syntax() == protoreflect.Editions {
 		pres, err := protoutil.ResolveFeature(p, fieldOf("field_presence"))
 		if err == nil {
 			want := descriptorpb.FeatureSet_EXPLICIT
